@@ -2,6 +2,7 @@ import SfVerif.Model.Writer
 import SfVerif.Lemmas.Codes
 import SfVerif.Lemmas.Zipper
 import SfVerif.Lemmas.GenFnsState
+import SfVerif.Lemmas.Language2
 /-! C03 — the writer enforces the document grammar; a rejected call changes nothing. -/
 namespace SfVerif.Props.C03
 open SfVerif SfVerif.Gen
@@ -60,6 +61,31 @@ theorem C03_grammar_reject_noop (g : G) (t : Tok) (h : (g.step t).2 ≠ WriteRes
 /-- non-vacuity: a reachable state two containers deep with a key waiting -/
 example : Reachable { out := #[0x91, 0x82, 0xa0], st := .obj 2 1, stack := [.arr 1 1] } :=
   ⟨[.arr 1, .obj 2, .strAlloc 0], by simp [Writer.run, Writer.step, WState.startContainer, WState.writeString, WState.arrWriteValue, WState.objWriteString, Writer.appendBytes, encArrLen, encMapLen, encStrLen]⟩
+
+/-- **the language of the grammar**: a call sequence is accepted call by call from the empty
+    document and leaves it complete **iff** it is the token string of a tree (one root value; an
+    object = its declared number of string-key / value pairs then a finish; an array = its
+    declared number of values then a finish; any nesting) -/
+theorem C03_language_of_the_grammar (ts : List Tok) :
+    (allOk (G.empty.run ts).1 ∧ (G.empty.run ts).2 = .complete) ↔ ∃ t : Tree, ts = t.toks := by
+  constructor
+  · rintro ⟨h1, h2⟩; exact language_complete ts h1 h2
+  · rintro ⟨t, rfl⟩; exact language_sound t
+
+/-- the same for the writer: every call of a sequence is accepted and finalisation then succeeds
+    **iff** the sequence describes a tree -/
+theorem C03_accepted_complete_sequences_are_trees (ops : List WOp) :
+    (allOk (({} : Writer).run ops).1 ∧ ((({} : Writer).run ops).2.finalize).1 = WriteResult_Ok) ↔
+    ∃ t : Tree, ops.map WOp.tok = t.toks := by
+  obtain ⟨h1, h2⟩ := C03_history_answered_by_grammar ops
+  have hreach : Reachable (({} : Writer).run ops).2 := ⟨ops, rfl⟩
+  rw [C03_complete_iff_root_closed _ hreach, h1, h2]
+  exact C03_language_of_the_grammar (ops.map WOp.tok)
+
+/-- non-vacuity: `{"k": [s, s]}` as a tree and its calls -/
+example : (Tree.obj [.arr [.scalar, .string]]).toks =
+    [.beginObj 1, .string, .beginArr 2, .scalar, .string, .endArr, .endObj] := by
+  simp [Tree.toks, Tree.pairToks, Tree.elemToks]
 
 /-- **tie by translation**: the model of the write state machine is equal, method by method, to
     the definitions regenerated from the function bodies of provider/src/write/state.rs
